@@ -98,6 +98,8 @@ def ex(n):
             return "0"
         if m == "_set" and nm == "empty":
             return "(is_nil set)"
+        if m == "_set" and nm == "size" and not args:
+            return "(Z.of_nat (length set))"
         if m == "this" and nm in ("mfind_small", "find_small") and len(args) == 1:
             return "(find_small_z cmp vec %s)" % ex(args[0])
         if m == "this" and nm == "isSmallContFull":
